@@ -318,6 +318,11 @@ func (rs *RoachSource) StartRun() error {
 					totalBytes = 0
 				}
 				rs.nextBlock <- block
+				if block.err != nil {
+					// A device ended the run (error, or no data for its keep-alive time): the core loop
+					// stops on this block. End here too, so that the deferred calls release the sockets.
+					return
+				}
 			}
 		}
 	}()
